@@ -85,6 +85,29 @@ func c03BigRun(c *fw.Ctx, shard, nshards int) {
 			}
 		}
 	}
+	// context takeover with messages around the size of the 32 KiB window: the first
+	// message of the connection fills (or overfills) the window in one go when the
+	// caller's buffer is large enough; the second refers back into it
+	text := make([]byte, 70000)
+	for i := range text {
+		text[i] = "the quick brown fox jumps over the lazy dog 0123456789\n"[(i+i/97+i/8191)%55]
+	}
+	for _, n := range []int{32767, 32768, 32769, 40000, 70000} {
+		for _, client := range []bool{false, true} {
+			mine := idx%nshards == shard
+			idx++
+			if !mine {
+				continue
+			}
+			def := &deflate.Deflater{}
+			var stream []byte
+			for _, m := range [][]byte{text[:n], append([]byte("again: "), text[n-5000:n-4700]...)} {
+				stream = append(stream, frame.Frame{Fin: true, Rsv1: true, Opcode: frame.OpText, Masked: !client, Key: [4]byte{0x5a, 0xa5, 0x3c, 0xc3}, Payload: def.Message(m)}.Encode(nil)...)
+			}
+			stream = append(stream, next(client)...)
+			c03RawOneBufs(c, sink, client, "takeover", stream, []int{4096, 32768, 65536})
+		}
+	}
 	sink.flush(c)
 	c.Bound("big_sizes", len(c03BigSizes(c.Thorough())))
 }
